@@ -630,11 +630,20 @@ func runC13Long(r *mon.Run, stream uint64) {
 func runC13(r *mon.Run, replay string) {
 	r.Rule("fork trees (mix / v2only) fully submitted to a node; PRNG pairs (from, to) of known indices on the same or different forks and v2 transaction sets valid at 'from' (spends with ephemeral chains, siafund spends, contract formation / revision / renewal / storage proof / expiration), optionally with a corrupted proof, leaf index or basis; the result of UpdateV2TransactionSet is compared with the expectation computed from the pure ledgers along path(from->to): input minus confirmed in order, each parent element equal to the ledger's leaf index and proof at 'to', still-ephemeral inputs untouched, error when an element never existed on the chain of 'to', no panic; plus V2TransactionSet/AddV2PoolTransactions (parents before children, basis = tip, accepted, caller memory) and paths of 1..160 blocks; distinct = (stream, pair, path shape, set size)")
 	if st, ok := replayStream(replay); ok {
-		runC13Tree(r, st)
+		switch {
+		case st >= 139500:
+			runC13ForkLimit(r, st)
+		case st >= 139000:
+			runC13Long(r, st)
+		default:
+			runC13Tree(r, st)
+		}
 		return
 	}
 	parallel(r.Pick(250, 4000), func(i int) { runC13Tree(r, uint64(130000+i)) })
 	parallel(r.Pick(6, 40), func(i int) { runC13Long(r, uint64(139000+i)) })
+	parallel(r.Pick(14, 80), func(i int) { runC13ForkLimit(r, uint64(139500+i)) })
+	r.Floor("fork_path:over_limit=true:ok=false", 3)
 	r.Floor("updates_checked_across_blocks", 300)
 	r.Floor("updates_across_forks", 50)
 	r.Floor("broadcast_sets_with_parents", 20)
